@@ -518,10 +518,10 @@ def _install_probe():
         orig = sscope.Flow.add_name
         _PROBE['star'] = 0
 
-        def add_name(self, name):
+        def add_name(self, name, *args, **kwargs):
             if getattr(name, 'is_star', False):
                 _PROBE['star'] += 1
-            return orig(self, name)
+            return orig(self, name, *args, **kwargs)
         sscope.Flow.add_name = add_name
     return _PROBE
 
